@@ -447,11 +447,29 @@ def _render_idx(v):
     return str(getattr(v, "idx", "?"))
 
 
+def _sort_neg_idx(v):
+    return -getattr(v, "idx", 0)
+
+
 def _render(pool, op):
-    _, u = op
+    # ["render", u] or ["render", u, how]: plain text with / without a sort key, PlantUML source, a PyVis network
+    u = op[1]
+    how = op[2] if len(op) > 2 else "plain"
     if not pool.has(u):
         return SKIP
     uu = pool.get(u)
+    if how == "sorted":
+        return _wrap(pool, lambda: plaintext.basic_render(uu, rfunc=_render_idx, sort=_sort_neg_idx))
+    if how == "pyvis":
+        from edgegraph.output import pyvis as egpyvis
+
+        return _wrap(pool, lambda: len(egpyvis.make_pyvis_net(uu, rvfunc=_render_idx).get_nodes()))
+    if how == "plantuml":
+        import copy
+
+        from edgegraph.output import plantuml
+
+        return _wrap(pool, lambda: plantuml.render_to_plantuml_src(uu, copy.deepcopy(plantuml.PLANTUML_RENDER_OPTIONS)) is not None)
     return _wrap(pool, lambda: plaintext.basic_render(uu, rfunc=_render_idx))
 
 
